@@ -35,7 +35,9 @@ SCRIPTS = '{"silent", "banner", "echo", "close"}'
 DOWNS = '{"up", "refuse", "closeatonce"}'
 AUTH = '{"badhello", "badext", "badkey", "replay", "window", "encmethod", "method", "uid", "ok", "nosession"}'
 HIDDEN = '{"short", "bogus", "replay", "method", "uid"}'
-STATEMENT_INV = "TypeOK TargetPrefix PeerOnlyTarget AcceptOnlyValid HangOnlyAuthenticated CloseOnlyIncomplete AllForwarded"
+PORTS_ONE = '{[cfg |-> "fixed", lp |-> "A", first |-> "none"]}'
+PORTS_ALL = '[cfg : {"fixed", "none"}, lp : {"A", "B"}, first : {"none", "A", "B"}]'
+STATEMENT_INV = "TypeOK RightTarget TargetPrefix PeerOnlyTarget AcceptOnlyValid HangOnlyAuthenticated CloseOnlyIncomplete AllForwarded"
 JVM = {"JAVA_TOOL_OPTIONS": "-Xss64m -XX:ParallelGCThreads=2 -XX:TieredStopAtLevel=1"}   # short jobs: stay in the C1 compiler
 JVM_BIG = {"JAVA_TOOL_OPTIONS": "-Xss64m -XX:ParallelGCThreads=4"}
 NEG = {  # deviation -> invariant it must break
@@ -43,6 +45,7 @@ NEG = {  # deviation -> invariant it must break
     "CloseOnMethod": "CloseOnlyIncomplete",
     "Banner": "PeerOnlyTarget",
     "ThresholdGE": "DecidesAtStop",
+    "PortCached": "RightTarget",
 }
 
 
@@ -59,11 +62,11 @@ AUTH_Q = '{"badext", "badkey", "method", "ok", "nosession"}'
 HIDDEN_Q = '{"bogus", "uid"}'
 
 
-def _mc(ctx, tag, chunks, allcuts, dev="{}", inv=STATEMENT_INV + " DecidesAtStop", workers=4, small=False, tiny=False):
-    sub = {"BUF": K["Buf"], "MAXCHUNKS": chunks, "ALLCUTS": "TRUE" if allcuts else "FALSE", "DEV": dev, "INV": inv,
+def _mc(ctx, tag, chunks, allcuts, dev="{}", inv=STATEMENT_INV + " DecidesAtStop", workers=4, small=False, tiny=False, ports=PORTS_ONE):
+    sub = {"PORTS": ports, "BUF": K["Buf"], "MAXCHUNKS": chunks, "ALLCUTS": "TRUE" if allcuts else "FALSE", "DEV": dev, "INV": inv,
            "SCRIPTS": SCRIPTS, "DOWNS": DOWNS, "AUTH": AUTH_Q if small else AUTH, "HIDDEN": HIDDEN_Q if small else HIDDEN}
     if tiny:   # the negative configurations need one target script and one class only
-        sub.update({"SCRIPTS": '{"echo"}', "DOWNS": '{"up"}', "AUTH": '{"method"}', "HIDDEN": '{"bogus"}'})
+        sub.update({"SCRIPTS": '{"echo"}', "DOWNS": '{"up"}', "AUTH": '{"method"}', "HIDDEN": '{"bogus"}', "PORTS": PORTS_ALL})
     return lib.run_tlc(ctx, "Dispatch", "Dispatch_mc.cfg", sub, tag=tag, workers=workers, expect_violation=True,
                        env=JVM_BIG if workers >= 8 else JVM, timeout=3000)
 
@@ -76,9 +79,11 @@ def _negatives(ctx):
     return out
 
 
-def _gen(ctx, tag, mode, chunks, full=False, allcuts=False, dev="{}", workers=4, simulate=None):
-    sub = {"BUF": K["Buf"], "MAXCHUNKS": chunks, "ALLCUTS": "TRUE" if allcuts else "FALSE", "DEV": dev,
+def _gen(ctx, tag, mode, chunks, full=False, allcuts=False, dev="{}", workers=4, simulate=None, ports=PORTS_ONE, tiny=False):
+    sub = {"PORTS": ports, "BUF": K["Buf"], "MAXCHUNKS": chunks, "ALLCUTS": "TRUE" if allcuts else "FALSE", "DEV": dev,
            "FULL": "TRUE" if full else "FALSE", "MODE": mode, "SCRIPTS": SCRIPTS, "DOWNS": DOWNS, "AUTH": AUTH, "HIDDEN": HIDDEN}
+    if tiny:
+        sub.update({"SCRIPTS": '{"banner", "echo"}', "DOWNS": '{"up", "refuse"}', "AUTH": '{"method", "uid", "ok"}', "HIDDEN": '{"bogus"}'})
     r = lib.run_tlc(ctx, "DispatchGen", "DispatchGen.cfg", sub, tag=tag, workers=1 if simulate else workers, env=JVM, timeout=3000,
                     simulate=simulate, depth=40 if simulate else None)
     lib.require_ok(r, tag)
@@ -107,7 +112,12 @@ def run(ctx):
         jobs["gen_reader"] = pool.submit(_gen, ctx, "gen_reader", "reader", 4, True)    # 4 segments at anchors, deadline / close anywhere
         jobs["gen_relay"] = pool.submit(_gen, ctx, "gen_relay", "relay", 3)
         jobs["gen_sim"] = pool.submit(_gen, ctx, "gen_sim", "full", 4, True, True, simulate=20000)
+    # the redirect-port dimension (RedirAddr with / without port x listener A / B x an earlier redirect on A / B / none)
+    # is explored with one representative per branch of the decision tree: it is orthogonal to the stream shapes
+    jobs["mc_ports"] = pool.submit(_mc, ctx, "mc_ports", 1, False, tiny=True)
+    jobs["gen_ports"] = pool.submit(_gen, ctx, "gen_ports", "relay", 1, ports=PORTS_ALL, tiny=True)
     res = {n: f.result() for n, f in jobs.items()}
+    lib.require_ok(res["mc_ports"], "Dispatch model check, port configurations")
     for dev, r in neg_f.result().items():
         if r.violated != NEG[dev]:
             raise lib.Inconclusive("negative configuration %s did not break %s (got %s): the invariant would be vacuous" % (dev, NEG[dev], r.violated))
@@ -120,7 +130,7 @@ def run(ctx):
             continue
         k0 = len(behaviours)
         for b in r.behaviours:
-            key = json.dumps([b["case"], [(s["a"], s["n"]) for s in b["steps"]]], sort_keys=True)
+            key = json.dumps([b["case"], [(s["a"], s["n"]) for s in b["steps"]]], sort_keys=True)   # case includes the port configuration
             if key in seen:
                 continue
             seen.add(key)
